@@ -404,6 +404,29 @@ func previousOwnersLoop(r *core.Run, rule string, fn *core.Fn, ev0 instrPred, ev
 		// every iteration contacts the owner: an iteration may end without the request only
 		// on the true edge of owner.CompareByID(This()) (this member's own copy is handled
 		// by the caller)
+		// nothing is returned before the walk: a return that the loop does not dominate may
+		// only be a failure, or sit behind a test of the list's length (nothing to walk)
+		if l.Yield == nil && l.Header != nil {
+			pt := passThrough(r.P)
+			early := ""
+			for _, ret := range core.Returns(fn.SSA) {
+				if l.Header.Dominates(ret.Block()) || !core.SuccessCapable(ret, pt) {
+					continue
+				}
+				guarded := false
+				for _, cd := range core.Conditions(ret.Block()) {
+					if lenBelow(cd, 2) {
+						guarded = true
+					}
+				}
+				if !guarded {
+					early = site(r, instrPos(ret))
+				}
+			}
+			r.Check(early == "", rule, fn.Name+" no return before the previous-owner walk", site(r, l.Pos()),
+				"every success return follows the walk over the previous owners",
+				"a success return at "+early+" precedes the walk over the previous owners: their copies never take part (a newer copy on a previous owner is ignored, a deleted key survives there)")
+		}
 		skip := skippingLatch(l, ev)
 		r.Check(skip == nil, rule, fn.Name+" previous-owner loop contacts every owner", site(r, l.Pos()),
 			"an iteration ends without "+evName+" only for this member itself",
@@ -491,4 +514,38 @@ func blockAt(r *core.Run, b *ssa.BasicBlock) string {
 		}
 	}
 	return ""
+}
+
+// lenBelow: the condition is a comparison of some len(x) with a constant that can only hold
+// when len(x) < n (there is nothing beyond the first n-1 elements to walk).
+func lenBelow(cd core.Cond, n int) bool {
+	bin, ok := cd.Val.(*ssa.BinOp)
+	if !ok || !core.IsCompare(bin.Op) {
+		return false
+	}
+	op := bin.Op
+	var k *ssa.Const
+	switch {
+	case lenArg(bin.X) != nil:
+		k, _ = bin.Y.(*ssa.Const)
+	case lenArg(bin.Y) != nil:
+		k, _ = bin.X.(*ssa.Const)
+		op = flip(op)
+	}
+	if k == nil || k.Value == nil {
+		return false
+	}
+	c := int(k.Int64())
+	for l := n; l <= n+8; l++ {
+		ord := 0
+		if l < c {
+			ord = -1
+		} else if l > c {
+			ord = 1
+		}
+		if core.CmpHolds(op, ord) == cd.Truth {
+			return false // a list with n or more elements can take this way
+		}
+	}
+	return true
 }
